@@ -785,3 +785,22 @@ def _k_pl_cat_allcols(family, case, disc):
 def _k_pl_cat_check(family, case, disc):
     return (family == "polars" and case["dtype"]["k"] == "category"
             and disc.kind in ("coerced-fails-own-check:pl:category", "wrong-channel:SchemaError:WRONG_DATATYPE:pl:category"))
+
+
+def evidence_extra():
+    return {
+        "dtype_domain": {
+            "pandas_covered": sorted({s["name"] for s in P.all_specs()}),
+            "polars_covered": sorted({s["name"] for s in L.all_specs()}),
+            "excluded_regions": [
+                "pandas Period/Interval/Sparse (need a freq/subtype/fill value; no coerce_value semantics for mixed pools)",
+                "pandas PydanticModel and Python generic types (row / element models, not element coercion)",
+                "pandas pyarrow-backed dtypes (Arrow*): not covered in this round",
+                "pandas float128/complex256, float16 on pd.Index (pandas has no float16 index)",
+                "polars nested Array/List/Struct, Object, Null",
+                "whole-DataFrame try_coerce with a schema-level dtype (pandas); only single columns are coerced",
+                "containers mixing naive/aware datetimes, several time zones or several string formats are not "
+                "required to convert as a whole (pd.to_datetime semantics); their failure cases are still checked",
+            ],
+        }
+    }
